@@ -70,10 +70,11 @@ PROPS = {
         'claim': 'Exhaustive within scope: every heap shape reachable by push/pop/clear/swap over pools of 7-8 (thorough 8-10) elements incl. ties and sign-only/reversed comparators; max-at-root, exact removal and level-order completeness in every state.',
         'note': E1_NOTE,
         'technique': 'explicit-state BFS to closure on the real code vs multiset model',
-        'jobs': [{'world': 'heap', 'src': 'worlds/heap_world.c', 'lib': ['heap.c', 'bintree.c', 'common.c'], 'flavours': RELDBG_ALWAYS}],
+        'jobs': [{'world': 'heap', 'src': 'worlds/heap_world.c', 'lib': ['heap.c', 'bintree.c', 'common.c'], 'flavours': RELDBG_ALWAYS},
+                 {'world': 'heapsize', 'src': 'worlds/heapsize_world.c', 'lib': ['heap.c', 'bintree.c', 'common.c'], 'flavours': BOTH}],
         'rule': 'breadth-first search to closure over push / pop (also on the empty heap) / clear / swap for pools with distinct, paired, all-equal and heavy priorities and '
                 'difference, sign-only and reversed comparators; in every state get must be a held maximum and level-order slots 1..size must be exactly the occupied ones; '
-                'non-trivial = at least 3 elements held',
+                'non-trivial = at least 3 elements held; in addition (world heapsize) an enumerated family of heap SIZES - every size 1..520 by fill/drain and every size up to 2^16+3 along one long fill with a pop and re-push at each size, five priority patterns, and cstl_fls against a reference - because the slot arithmetic depends on the size alone and a closure cannot reach sizes like 256 or 65536',
         'assumptions': ASSUME_E1,
     },
     'C08': {
